@@ -366,7 +366,7 @@ fn s_v9_data_dispatch() {
 /// every id class, and leaves both caches untouched.  One harness per id class (the id
 /// bytes are written concretely so that symex explores one body kind at a time).
 macro_rules! s_v9_truncated {
-    ($name:ident, $hi:expr, $lo:expr) => {
+    ($name:ident, $hi:expr, $lo:expr, $len:expr) => {
         #[kani::proof]
         #[kani::stub(core::fmt::write, no_fmt)]
         #[kani::stub(netflow_parser::variable_versions::v9::Data::parse, data_model)]
@@ -379,8 +379,7 @@ macro_rules! s_v9_truncated {
             let mut buf: [u8; N] = kani::any();
             buf[0] = $hi;
             buf[1] = $lo;
-            let len = be16(&buf, 2);
-            kani::assume(len as usize > N);
+            put16(&mut buf, 2, $len); // declared length > N available bytes
             let r = FlowSet::parse(&buf, &mut p);
             assert!(r.is_err());
             assert!(p.templates.len() == 1 && p.options_templates.len() == 0);
@@ -390,6 +389,8 @@ macro_rules! s_v9_truncated {
         }
     };
 }
-s_v9_truncated!(s_v9_truncated_t, 0, 0);
-s_v9_truncated!(s_v9_truncated_o, 0, 1);
-s_v9_truncated!(s_v9_truncated_d, 1, 44);
+s_v9_truncated!(s_v9_truncated_t, 0, 0, 11);
+s_v9_truncated!(s_v9_truncated_t_max, 0, 0, 65535);
+s_v9_truncated!(s_v9_truncated_o, 0, 1, 13);
+s_v9_truncated!(s_v9_truncated_d, 1, 44, 11);
+s_v9_truncated!(s_v9_truncated_d_max, 1, 44, 65535);
